@@ -214,9 +214,9 @@ impl DecoderRleMode<'_> {
     ) -> CodingResult<RleToken> {
         let token = self.inner.code.read_symbol(bitstream, cluster)?;
         if let Some(token) = token.checked_sub(self.min_symbol) {
-            let num_to_copy = self
-                .inner
-                .read_uint_prefilled(bitstream, &self.len_config, token);
+            let num_to_copy =
+                self.inner
+                    .read_uint_prefilled(bitstream, &self.len_config, token)?;
             // Same check as in the general LZ77 path.
             let Some(num_to_copy) = num_to_copy.checked_add(self.min_length) else {
                 tracing::error!(
@@ -232,7 +232,7 @@ impl DecoderRleMode<'_> {
                 bitstream,
                 &self.inner.configs[cluster as usize],
                 token,
-            )))
+            )?))
         }
     }
 
@@ -485,7 +485,7 @@ impl DecoderInner {
         cluster: u8,
     ) -> CodingResult<u32> {
         let token = self.code.read_symbol(bitstream, cluster)?;
-        Ok(self.read_uint_prefilled(bitstream, &self.configs[cluster as usize], token))
+        self.read_uint_prefilled(bitstream, &self.configs[cluster as usize], token)
     }
 
     fn read_varint_with_multiplier_clustered_lz77(
@@ -529,7 +529,7 @@ impl DecoderInner {
                 let lz_dist_cluster = self.lz_dist_cluster();
 
                 let num_to_copy =
-                    self.read_uint_prefilled(bitstream, &state.lz_len_conf, token - min_symbol);
+                    self.read_uint_prefilled(bitstream, &state.lz_len_conf, token - min_symbol)?;
                 let Some(num_to_copy) = num_to_copy.checked_add(min_length) else {
                     tracing::error!(num_to_copy, min_length, "LZ77 num_to_copy overflow");
                     return Err(Error::InvalidLz77Symbol);
@@ -541,7 +541,7 @@ impl DecoderInner {
                     bitstream,
                     &self.configs[lz_dist_cluster as usize],
                     token,
-                );
+                )?;
                 let distance = if dist_multiplier == 0 {
                     distance
                 } else if distance < 120 {
@@ -559,7 +559,7 @@ impl DecoderInner {
                 state.copy_pos += 1;
                 state.num_to_copy -= 1;
             } else {
-                r = self.read_uint_prefilled(bitstream, &self.configs[cluster as usize], token);
+                r = self.read_uint_prefilled(bitstream, &self.configs[cluster as usize], token)?;
             }
         }
         let offset = (state.num_decoded & 0xfffff) as usize;
@@ -578,7 +578,7 @@ impl DecoderInner {
         bitstream: &mut Bitstream,
         config: &IntegerConfig,
         token: u32,
-    ) -> u32 {
+    ) -> CodingResult<u32> {
         let &IntegerConfig {
             split_exponent,
             split,
@@ -587,7 +587,7 @@ impl DecoderInner {
             ..
         } = config;
         if token < split {
-            return token;
+            return Ok(token);
         }
 
         let n = split_exponent - (msb_in_token + lsb_in_token)
@@ -595,7 +595,9 @@ impl DecoderInner {
         // n < 32.
         let n = n & 31;
         let rest_bits = bitstream.peek_bits_prefilled(n as usize) as u64;
-        bitstream.consume_bits(n as usize).ok();
+        // A short read is the end of the data, not zero bits: the value may be the last one of a
+        // stream (ICC profile, TOC permutation), where nothing else would notice.
+        bitstream.consume_bits(n as usize)?;
 
         let low_bits = token & ((1 << lsb_in_token) - 1);
         let low_bits = low_bits as u64;
@@ -605,7 +607,7 @@ impl DecoderInner {
         let token = token as u64;
         let result = (((token << n) | rest_bits) << lsb_in_token) | low_bits;
         // result fits in u32.
-        result as u32
+        Ok(result as u32)
     }
 
     #[inline]
